@@ -61,7 +61,7 @@ def reference_accepts(kinds):
     if 'Uc' in kinds:
         return False
     if 'S' in kinds and 'Un' in kinds[kinds.index('S') + 1:]:
-        return None          # unknown non-critical record after the signature: the property text does not decide it
+        return False         # "a single FINAL PKI-signature record": nothing may follow it, not even an ignorable record (it would be unsigned)
     k = [x for x in kinds if x != 'Un']
     if not k or k[0] != 'H' or k.count('H') != 1 or k.count('S') != 1 or k[-1] != 'S':
         return False
@@ -179,8 +179,12 @@ def trust_part(job, r):
     for i in range(n):
         recs = [hdr()] + [cert_rec(w.signer)] * rng.randint(0, 1) + [pub_rec(1500000000 + j * 86400 * 30, gen.rnd_imprint(rng, 1)) for j in range(rng.randint(0, 3))]
         signer = rng.choice([w.signer, w.signer, w.signer, w.foreign, w.signer2])
+        if i < 4:
+            signer = w.signer
         body = MAGIC + b''.join(x.enc() for x in recs)
         range_kind = rng.choice(['exact', 'exact', 'exact', 'minus-last-byte', 'plus-sig-header', 'without-magic', 'other-data'])
+        if i < 4:
+            range_kind = 'exact'
         if range_kind == 'exact':
             rangeb = body
         elif range_kind == 'minus-last-byte':
@@ -199,7 +203,12 @@ def trust_part(job, r):
         else:
             raw, _, p7 = build(recs, signer, work, sign_range=rangeb)
         anchors = rng.choice(['good', 'good', 'good', 'other', 'none', 'both'])
+        if i < 4:
+            anchors = ('good', 'both')[i % 2]
         cons_kind = rng.choice(['email', 'email', 'email+cn', 'all', 'none', 'email-off', 'cn-off', 'extra-oid', 'prefix', 'longer', 'email-longer', 'cn-longer', 'email-case', 'one-char'])
+        if i < 4:
+            # a fixed share of all-conditions-hold cases (every job), so the positive verdict is always well represented
+            cons_kind = ('email', 'email+cn', 'all', 'email')[i]
         cons = {'email': {EMAIL: subj[EMAIL]}, 'email+cn': {EMAIL: subj[EMAIL], CN: subj[CN]}, 'all': dict(subj), 'none': {},
                 'email-off': {EMAIL: 'publication@guardtime.test'}, 'cn-off': {EMAIL: subj[EMAIL], CN: 'pub.exampl'},
                 'extra-oid': {EMAIL: subj[EMAIL], '2.5.4.7': 'Tallinn'}, 'prefix': {EMAIL: subj[EMAIL][:-1]}, 'longer': {ORG: subj[ORG] + ' '},
